@@ -175,6 +175,52 @@ def run(tier, seed):
                               "recycled response object, then end of stream)" % final)
         else:
             accepted += 1
+        # fid allocation against the server's view of bound fids (spec/FidPool.tla)
+        depth = 5 if tier == "quick" else 6
+
+        def fcfg(fx, inv):
+            return "\n".join(["SPECIFICATION Spec", "CONSTANTS", "  MaxSteps = %d" % depth, "  MaxFids = 3",
+                              "  Fixed = {%s}" % ", ".join('"%s"' % f for f in fx), "CHECK_DEADLOCK FALSE", "INVARIANTS " + inv, ""])
+        r = vlib.run_tlc(s, "MC_FidPool", fcfg(["R15"], "NewFidUnbound HeldNotPooled PoolDistinct"), name="mc-fidpool", timeout=1500)
+        if "violated" in r:
+            raise Inconclusive("FidPool.tla itself violates " + r["violated"])
+        states += r.get("distinct", 0)
+        trans += r.get("generated", 0)
+        runs.append({"config": "FidPool depth %d" % depth, "distinct": r.get("distinct"), "generated": r.get("generated"),
+                     "invariants": ["NewFidUnbound", "HeldNotPooled", "PoolDistinct"]})
+        fout = os.path.join(s, "fidpool.ndjson")
+        vlib.run_tlc(s, "MC_FidPool", fcfg([f for f in fixed if f == "R15"], "Dump"), workers=1, env={"GEN_OUT": fout}, name="gen-fidpool", timeout=1500)
+        fouts = []
+
+        def fargs(i, n):
+            o = os.path.join(s, "fid-%d.json" % i)
+            fouts.append(o)
+            return ["-in", fout, "-out", o, "-shard", str(i), "-nshard", str(n)]
+        fres = vlib.run_shards("fidsched", fargs)
+        fcases = fdiffs = 0
+        for (rc, o, e), f in zip(fres, fouts):
+            if rc != 0 or not os.path.exists(f):
+                raise Inconclusive("fidsched failed: " + (e or o)[-1500:])
+            d = json.load(open(f))
+            fcases += d["cases"]
+            fdiffs += d.get("policy_diffs", 0)
+            nscripts += d["cases"]
+            accepted += d["cases"] - len(d.get("findings") or [])
+            if len(samples) < 3 and d.get("samples"):
+                samples.append({"fidpool_history": d["samples"][0]})
+            for fd in d.get("findings") or []:
+                garbled_before = any(st["out"] == "garbled" for st in fd["hist"][:max(fd["step"], 0)])
+                if fd.get("reuse") and garbled_before and "R15" in opens:
+                    # predicted by the specification with the deviation: the client carries on after a frame it
+                    # cannot accept and has put back the fid of the call that frame failed
+                    known.add("R15")
+                    accepted += 1
+                    continue
+                if len(verdict.violations) < 5:
+                    p = vlib.save_replay(prop, {"kind": "fidpool", "history": fd["hist"], "step": fd["step"], "finding": fd["detail"]}, "fidpool")
+                    verdict.violation(p, "fid allocation, history %s, step %d: %s" %
+                                      ([(x["op"], x["fid"], x["out"]) for x in fd["hist"]], fd["step"], fd["detail"]))
+        runs.append({"config": "gen-fidpool", "histories": fcases, "fid_numbers_differing_from_the_LIFO_pool": fdiffs})
     for k in known:
         verdict.known_finding("%s %s" % (k, opens[k].get("what", "")))
     cov = {"states": states, "transitions": trans, "traces_validated_against_impl": accepted,
@@ -182,9 +228,12 @@ def run(tier, seed):
            "rule": ("every stimulus script (start caller, answer the i-th request, unknown tag / wrong type / garbage frame, close, "
                     "failing and blocking writes) of the bounded Client.tla configurations - all reply orders and every fault "
                     "position - executed against p9.Client with a scripted server; per caller: blocked / error / success and "
-                    "WHICH request's reply it carries; plus fid/tag monitors at the server side"),
+                    "WHICH request's reply it carries; plus fid/tag monitors at the server side; plus every history of 5 (thorough: 6) File "
+                    "operations (walk, attach, close, remove) x outcome (served, refused, write lost, reply replaced by an unacceptable "
+                    "frame) of FidPool.tla against p9.Client: the fid number each request carries, and no binding request names a fid the "
+                    "server still has bound"),
            "tlc_runs": runs, "exhaustive": limit is None,
-           "checker_cmd": "tlc Client.tla + lib/bigstep.py + harness/cmd/clientsched"}
+           "checker_cmd": "tlc Client.tla, FidPool.tla + lib/bigstep.py + harness/cmd/clientsched, harness/cmd/fidsched"}
     vlib.write_evidence(prop, tier, seed, "model_checking", cov, [
         "quiescence judged by an idle window (20 ms; a rejected script is re-run once with 120 ms)",
         "tag values are not compared (any allocation policy that keeps outstanding tags distinct is accepted); the model uses the code's LIFO pool to find reuse hazards",
